@@ -26,11 +26,11 @@ THEOREMS = [
         "merged_table_rel", "classification_table", "convert_total_autoware", "convert_total_trafficLight",
         "convert_case_insensitive", "registered_any_case", "registered_upper", "canonical_roundtrip_autoware",
         "canonical_roundtrip_trafficLight", "unregistered_unknown", "merge_consistent", "targets_same_mapping",
-        "setTargetLists_eq_map",
+        "setTargetLists_eq_map", "label_tables_nonempty",
     ]
 ]
 TRUSTED = [
-    "translator harness/gen_tables.py (calls _get_autoware_pairs / _get_traffic_light_paris of the working tree)",
+    "translator harness/gen_tables.py (builds LabelConverter(task, merge, prefix) of the working tree and reads label_infos; the private table functions only as a fallback)",
     "Python str.lower() modelled by Lean String.toLower (ASCII only; generated strings are ASCII)",
     "the 'documented label' of the oracle: docs/en/perception/label.md (Autoware family, frozen copy) and a structural rule for traffic lights",
 ]
